@@ -616,6 +616,10 @@ func (r *Record) Dirs() (ifd0, exif, gps *Dir) {
 		add(ifd0, &Entry{ID: tagDNGVersion, Type: TByte, Count: 4, Bytes: []byte{1, 4, 0, 0}, Field: "DNGVersion"})
 	}
 	sadd(ifd0, tagCameraSerial, r.CameraSerial, "CameraSerial")
+	if len(ifd0.Entries) == 0 {
+		// TIFF 6.0: a directory has at least one entry
+		add(ifd0, short(0x0128, 2, ""))
+	}
 
 	if r.HasExif() {
 		exif = &Dir{Name: "Exif"}
@@ -1075,4 +1079,58 @@ func BuildTIFF(l *core.Lane, r *Record, opts LayoutOpts) *Layout {
 		ifd0.Next = ifd1
 	}
 	return DrawLayout(l, ifd0, opts)
+}
+
+// BuildSplit draws the CR3 form of a record: the same logical record split by directory as the
+// format requires (IFD0 -> CMT1, Exif IFD -> CMT2, GPS IFD -> CMT4), each a TIFF block of its
+// own whose root directory is that directory.
+func BuildSplit(l *core.Lane, r *Record, opts LayoutOpts) (cmt1, cmt2, cmt4 *Layout) {
+	ifd0, exif, gps := r.Dirs()
+	addForeign := func(d *Dir, pool []uint16) {
+		if opts.Foreign <= 0 || opts.Canonical {
+			return
+		}
+		n := 0
+		switch l.Intn(4) {
+		case 1:
+			n = 1 + l.Intn(3)
+		case 2:
+			n = l.Intn(opts.Foreign + 1)
+		}
+		used := map[uint16]bool{}
+		for i := 0; i < n; i++ {
+			if e := DrawForeign(l, pool, used); e != nil {
+				d.Entries = append(d.Entries, e)
+			}
+		}
+	}
+	addForeign(ifd0, foreignIFD0)
+	cmt1 = DrawLayout(l, ifd0, opts)
+	if exif != nil {
+		addForeign(exif, foreignExif)
+		cmt2 = DrawLayout(l, exif, opts)
+	}
+	if gps != nil {
+		addForeign(gps, foreignGPS)
+		cmt4 = DrawLayout(l, gps, opts)
+	}
+	return
+}
+
+var typeNames = map[int]string{1: "BYTE", 2: "ASCII", 3: "SHORT", 4: "LONG", 5: "RATIONAL", 6: "SBYTE", 7: "UNDEFINED", 8: "SSHORT", 9: "SLONG", 10: "SRATIONAL", 11: "FLOAT", 12: "DOUBLE"}
+
+// SlotProbes lists (type x count) of every value living in the 4-byte offset slot.
+func (ly *Layout) SlotProbes() []string {
+	var out []string
+	for _, b := range ly.Blocks {
+		if b.dir == nil {
+			continue
+		}
+		for _, e := range b.dir.Entries {
+			if e.Child == nil && e.Size() <= 4 {
+				out = append(out, fmt.Sprintf("%sx%d", typeNames[e.Type], e.Count))
+			}
+		}
+	}
+	return out
 }
